@@ -11,7 +11,7 @@
    program by running the extracted monitor on the real compiler's binary (tools/c08.py): translation
    validation, with the validator's soundness proved here. *)
 From Coq Require Import ZArith List String Lia.
-From HexVerif Require Import WMap Isa IsaMon IsaMonProofs XAst XSem XCodegenIsa XCodegenInv XCodegenExpr XCodegenStmt XCodegenCall.
+From HexVerif Require Import WMap Isa IsaMon IsaMonProofs XAst XSem XCodegenIsa XCodegenInv XCodegenExpr XCodegenStmt XCodegenCall XCodegenImage XCodegenDemo.
 Import ListNotations.
 Local Open Scope Z_scope.
 
@@ -69,14 +69,14 @@ Print Assumptions C08_validated_run_partial.
    every f) and of C01_stmt_calls_partial (procedure-call statements, relative to the callees' specification; then
    the free stack Fr below the frame counts as scratch: that is where callees put their frames).
    Missing for C08_full: the clauses for every intermediate access (this is the net effect between statement
-   boundaries; the per-access clauses are decided per program by the monitor, C08_monitor_sound), function calls
-   (procedure calls: (6)), and the entry/exit stub. *)
+   boundaries; the per-access clauses are decided per program by the monitor, C08_monitor_sound), calls inside
+   operands (procedure calls and function calls as right-hand sides: (6)), and the entry/exit stub. *)
 Theorem C08_frame_discipline_partial :
   forall pinfo Fr Dq venv pool size nslots off0 og exitl ge P m0 lab sp f,
     stmt_ok pinfo Fr Dq venv pool size nslots off0 og exitl ge P m0 lab sp f ->
     forall s n code n' st st', cs pinfo venv pool size nslots off0 og exitl s n = Some (code, n') ->
     exec f ge s st = Ret Normal st' ->
-    forall m pos nxt a b inp, Rel Dq venv ge P m0 sp st m -> code_at (C P m0) lab pos code nxt ->
+    forall m pos nxt a b inp, Rel pinfo Dq venv ge P m0 sp st m -> code_at (C P m0) lab pos code nxt ->
     0 <= pos -> nxt < W -> 0 <= lab exitl < W ->
     exists evs a' b' m',
       runs inp (mk pos a b 0 m) evs inp (mk nxt a' b' 0 m') /\
@@ -86,8 +86,8 @@ Theorem C08_frame_discipline_partial :
 Proof. exact frame_discipline. Qed.
 Print Assumptions C08_frame_discipline_partial.
 
-(* (6) PARTIAL: prologue/epilogue balance and the frame discipline ACROSS a procedure call, in the setting of
-   Properties_C01.C01_calls_partial (simple procedures: value formals, var locals, no shadowing of globals; code =
+(* (6) PARTIAL: prologue/epilogue balance and the frame discipline ACROSS a procedure or function call, in the setting
+   of Properties_C01.C01_calls_partial (simple procedures and functions: value formals, var locals, no shadowing of globals; code =
    prologue ++ body ++ exit label ++ epilogue before the peepholes; globals below stack_lo; stack budget
    stack_lo + (maxdepth - depth) * maxframe <= sp in Rel).  When control is at the entry label of a procedure of the
    table with the link address in areg and the actuals in the caller's outgoing words, and XSem's `invoke` returns
@@ -98,30 +98,33 @@ Print Assumptions C08_frame_discipline_partial.
    [stack_lo, sp) below its frame (where the callee's frames were), or is the word of a variable in the caller's
    scope.  In particular the callee did not write the caller's locals, formals, or anything above the caller's
    frame, and never went below stack_lo.
-   Missing for C08_full: function calls, the per-access form of the clauses inside the callee (net effect at the
+   (koff pi = 1 for a procedure, 2 for a function: where the actuals start; a function also writes its result to
+   the caller's outgoing word sp+1, which is part of [sp, sp+og).)
+   Missing for C08_full: calls inside operands, the per-access form of the clauses inside the callee (net effect at the
    return only; per access: the monitor), array/proc formals, the entry/exit stub. *)
 Theorem C08_call_discipline_partial :
   forall (ge : genv) (gaddr : string -> option Z) (pool : Z -> option Z) (P : Z -> Prop) (m0 : WMap.t)
          (lab : label -> Z) (pinfo : string -> option pframe) (lay : string -> option playout) (stack_lo maxframe : Z),
     (forall p pi, pinfo p = Some pi ->
-       pf_isfunc pi = false /\ 0 <= lab (pf_entry pi) /\
+       0 <= lab (pf_entry pi) /\
        exists pr fn ln L bc n' endp,
-         find_proc p (g_procs ge) = Some pr /\ lay p = Some L /\ simple_proc gaddr pr fn ln /\ numbers_ok maxframe pr L /\
+         find_proc p (g_procs ge) = Some pr /\ pf_isfunc pi = is_func pr /\ lay p = Some L /\ simple_proc gaddr pr fn ln /\
+         numbers_ok maxframe pr L /\
          cs pinfo (frame_venv gaddr pr (pl_size L)) pool (pl_size L) (pl_nslots L) (first_temp pr) (pl_og L) (pl_exit L)
             (body pr) (pl_n0 L) = Some (bc, n') /\
-         code_at (C P m0) lab (lab (pf_entry pi)) (pro (pl_size L) ++ bc ++ epi (pl_exit L) (pl_size L)) endp /\ endp < W) ->
+         code_at (C P m0) lab (lab (pf_entry pi)) (pro (pl_size L) ++ bc ++ epi_of (is_func pr) (pl_exit L) (pl_size L)) endp /\ endp < W) ->
     (forall x a, gaddr x = Some a -> in_mem a = true /\ ~ P a /\ a <> 1 /\ a < stack_lo /\ assoc x (g_vals ge) = None) ->
     (forall x y a b, gaddr x = Some a -> gaddr y = Some b -> x <> y -> a <> b) ->
     1 < stack_lo /\ (forall a, stack_lo <= a < MEMW -> ~ P a) ->
     ~ P 1 ->
     (forall v a, pool v = Some a -> P a /\ in_mem a = true /\ rd m0 a = v mod W) ->
-    (forall p pi st n, pinfo p = Some pi -> call_target ge p st <> TSys n) ->
+    (forall p pi, pinfo p = Some pi -> assoc p (g_vals ge) = None) ->
     0 <= maxframe ->
     forall f pr fn ln L sp, frame_ok gaddr stack_lo maxframe pr fn ln L sp ->
     forall p pi vs st v st' m link b inp, pinfo p = Some pi ->
-      Rel (Dq_of ge stack_lo maxframe sp) (frame_venv gaddr pr (pl_size L)) ge P m0 sp st m ->
-      args_stored sp vs 1 m -> Z.of_nat (List.length vs) + 1 <= pl_og L -> 0 <= link < W ->
-      invoke (exec f ge) ge false p vs st = Ret v st' ->
+      Rel pinfo (Dq_of ge stack_lo maxframe sp) (frame_venv gaddr pr (pl_size L)) ge P m0 sp st m ->
+      args_stored sp vs (koff pi) m -> Z.of_nat (List.length vs) + koff pi <= pl_og L -> 0 <= link < W ->
+      invoke (exec f ge) ge (pf_isfunc pi) p vs st = Ret v st' ->
       exists evs a' b' m', runs inp (mk (lab (pf_entry pi)) link b 0 m) evs inp (mk link a' b' 0 m') /\
         rd m' 1 = rd m 1 /\ (forall x, 0 <= x -> P x -> rd m' x = rd m x) /\
         (forall x, 0 <= x ->
@@ -129,6 +132,19 @@ Theorem C08_call_discipline_partial :
            ~ var_word (frame_venv gaddr pr (pl_size L)) sp x -> rd m' x = rd m x).
 Proof. exact call_discipline. Qed.
 Print Assumptions C08_call_discipline_partial.
+
+(* Non-vacuity of (6): its hypotheses are those of Properties_C01.C01_calls_partial (prog_hyps), and they hold for
+   the demo program of coq/XCodegenDemo.v (a recursive procedure cd with a value formal and a local and a recursive
+   function fd, called from main), whose image is laid out as xcmp does from the model's lowered code.  Applied to
+   main's body `g := 0; cd(3); g := fd(g)` run from main's frame: after four nested activations of cd and seven of
+   fd the stack-pointer word holds 199994 as before. *)
+Example C08_call_discipline_nonvacuous_hyps :
+  prog_hyps demo_ge demo_gaddr demo_pool demo_P demo_m0 demo_lab demo_pinfo demo_lay demo_stack_lo demo_maxframe.
+Proof. exact demo_hyps. Qed.
+Example C08_call_discipline_nonvacuous_run : forall a b inp, exists a' b' m',
+  runs inp (mk 112 a b 0 (wr demo_m0 1 199994)) [Write 51 0; Write 50 0; Write 49 0; Write 48 0] inp (mk 129 a' b' 0 m') /\
+  rd m' 1 = 199994 /\ rd m' 2 = 7.
+Proof. exact demo_main_body_runs. Qed.
 
 (* Non-vacuity.  The image the repaired xcmp emits for `proc main() is skip` (5 words; data word 1 = stack
    pointer 199997; _exit at byte 10) is accepted by the monitor for its whole run (11 instructions), so the
